@@ -6,10 +6,11 @@ Interface used by vlib.check:
   nontrivial(case, obs) ; bucket(case, obs) -> labels for the input distribution
   optional: classify, explain, shrink, search, drive
 """
-from vlib import cN, cnat, cbool, clist, copt, cpair
+from vlib import cN, cnat, cbool, clist, copt, cpair, run_driver
 
 ID = "C13"
 GO_PKG = "./lib/hash"
+GO_PKGS = ["./lib/hash", "./lib/store/cache", "./lib/store/kv"]
 GEN_SPEC = {"items": [
     {"kind": "const", "file": "lib/hash/consistenthash.go", "name": "minReplicas"},
     {"kind": "const", "file": "lib/hash/consistenthash.go", "name": "TopWeight"},
@@ -28,8 +29,29 @@ ASSUMPTIONS = ["no ring-position collision between virtual nodes (checked per ca
                "share-proportional-to-weight clause is statistical and is checked as a test in the thorough tier only"]
 
 
+def _user_cases(rng, tier):
+    """cache cluster / kv store dispatch vs a directly built ring, and Hash vs murmur3 on inputs of every length"""
+    out = []
+    shapes = [[100, 100], [100, 50, 25], [1, 100, 100], [0, 100], [100] * 5, [9] + [100] * 11, [100] * 101,
+              [rng.choice([0, 1, 5, 20, 50, 100]) for _ in range(rng.randint(2, 9))]]
+    if not any(shapes[-1]):
+        shapes[-1][0] = 100
+    for pkg in ("cache", "kv"):
+        for w in (shapes if tier == "thorough" else rng.sample(shapes, 4) + [[100] * 101]):
+            keys = ["user:%d:%d" % (rng.randrange(10 ** 7), i) for i in range(60)]
+            out.append({"kind": "dispatch", "pkg": pkg, "weights": w, "keys": keys})
+    data = []
+    prefix = bytes(rng.randrange(256) for _ in range(80))
+    for ln in [0, 1, 7, 8, 15, 16, 17, 31, 32, 33, 63, 64, 65, 100, 127, 128, 129, 300]:
+        data.append(bytes(rng.randrange(256) for _ in range(ln)).hex())
+    for i in range(12):       # long inputs sharing a long prefix (namespaced keys, long node names)
+        data.append((prefix + b"/key/%d" % i).hex())
+    out.append({"kind": "hash", "data": data})
+    return out
+
+
 def generate(rng, tier, n):
-    cases = []
+    cases = _user_cases(rng, tier) if tier != "search" else []
     for _ in range(n):
         custom = rng.random() < 0.7
         replicas = rng.choice([50, 100, 101, 120]) if custom else 0
@@ -65,7 +87,42 @@ def generate(rng, tier, n):
     return cases
 
 
+def drive(cases, tier):
+    obs = [None] * len(cases)
+    logs = []
+    groups = {"ring": ("./lib/hash", "^TestVerifDriver$"), "hash": ("./lib/hash", "^TestVerifDriver$"),
+              "cache": ("./lib/store/cache", "^TestVerifDriverC13$"), "kv": ("./lib/store/kv", "^TestVerifDriverC13$")}
+
+    def grp(c):
+        k = c.get("kind", "ring")
+        return c["pkg"] if k == "dispatch" else k
+    for g, (pkg, run) in groups.items():
+        idx = [i for i, c in enumerate(cases) if grp(c) == g]
+        if not idx:
+            continue
+        o, lg = run_driver(pkg, [cases[i] for i in idx], name="C13%s_%s" % (g, tier[:1]), run=run)
+        logs.append(lg[-800:])
+        if o is None:
+            return None, lg
+        for i, x in zip(idx, o):
+            obs[i] = x
+    return obs, "\n".join(logs)
+
+
+def _optlist(xs):
+    return clist([copt(None if v < 0 else cnat(v)) for v in xs])
+
+
 def encode(case, obs):
+    kind = case.get("kind", "ring")
+    if kind == "dispatch":
+        return "CX %s %s %s" % (clist([cnat(w) for w in case["weights"]]), _optlist(obs["got"]), _optlist(obs["ref"]))
+    if kind == "hash":
+        return "CF %s %s" % (clist([cN(x) for x in obs["got"]]), clist([cN(x) for x in obs["ref"]]))
+    return "CH (%s)" % _encode_ring(case, obs)
+
+
+def _encode_ring(case, obs):
     allh = set(obs["phash"])
     for hs in obs["vhash"].values():
         allh.update(hs)
@@ -91,6 +148,10 @@ def encode(case, obs):
 
 
 def nontrivial(case, obs):
+    if case.get("kind") == "dispatch":
+        return len(set(obs["got"])) >= 2
+    if case.get("kind") == "hash":
+        return len(obs["got"]) > 5
     owners = {v for row in obs["results"] for v in row if v >= 0}
     seen, churn = set(), False
     for o in case["ops"]:
@@ -104,6 +165,10 @@ def nontrivial(case, obs):
 
 
 def bucket(case, obs):
+    if case.get("kind") == "dispatch":
+        return ["dispatch:" + case["pkg"], "nodes=%d" % len(case["weights"])]
+    if case.get("kind") == "hash":
+        return ["hash-vs-murmur3"]
     out = ["ops=%d" % len(case["ops"])]
     if case.get("balance_tol"):
         out.append("balance-test")
@@ -119,6 +184,11 @@ def bucket(case, obs):
 
 
 def explain(case, obs):
+    if case.get("kind") == "dispatch":
+        return ("the %s built from the configured (address, weight) pairs dispatches some key to another node than the consistent "
+                "hash built directly from the same pairs (or reports absence although a node has positive weight)" % case["pkg"])
+    if case.get("kind") == "hash":
+        return "hash.Hash(data) differs from murmur3.Sum64(data) for some input (the default hash must hash the whole input)"
     return ("observed Get results contradict C13.Exec.spec_ok: an answer differs from the abstract ring's owner "
             "(c13_refines), or a key moved although its owner stayed (c13_remove_monotone / c13_add_monotone), "
             "or a weight-0 / absent node received a key")
